@@ -271,12 +271,21 @@ ITEMS = [
        sig_rewrites=[ITER_RET],
        ensures=[('exact', 'forall|k: PolicyID| #[trigger] id_in(r.items(), k) <==> (self.satisfied_permits@.dom().contains(k) || self.satisfied_forbids@.dom().contains(k))', ['C13'])],
        proof_start='broadcast use lemma_id_in_concat;'),
+    Fn(PR, 'impl PartialResponse > fn all_residuals', wrap='impl PartialResponse',
+       sig_rewrites=[(r"&'_ self", "&self", 1), ITER_RET],
+       ensures=[('exact', 'all_listed(*self, r.items())', ['C13'])],
+       proof_tail="""proof {
+            let items = __vx_r.items();
+            assert forall|cp: Seq<PolicyComponents<'_>>, cf: Seq<PolicyComponents<'_>>|
+                #![trigger comps_ok(*self, cp, Effect::Permit), comps_ok(*self, cf, Effect::Forbid)]
+                comps_ok(*self, cp, Effect::Permit) && comps_ok(*self, cf, Effect::Forbid) && eff_id_from(items, cp + cf)
+                implies all_listed(*self, items) by { lemma_all_listed(*self, cp, cf, items); }
+        }"""),
 ]
 CANARIES = ['is_authorized_core_internal', 'from']
 # mechanisms of C13 at the response level that no unit covers: a change to them cannot be decided by this check
 UNCOVERED = [('cedar-policy-core/src/authorizer/partial_response.rs', 'impl PartialResponse > fn concretize_request'),
              ('cedar-policy-core/src/authorizer/partial_response.rs', 'impl EntityUIDEntry > fn concretize'),
-             ('cedar-policy-core/src/authorizer/partial_response.rs', 'impl PartialResponse > fn all_residuals'),
              ('cedar-policy-core/src/authorizer/partial_response.rs', 'impl PartialResponse > fn get'),
              ('cedar-policy-core/src/authorizer/partial_response.rs', 'impl PartialResponse > fn get_permit'),
              ('cedar-policy-core/src/authorizer/partial_response.rs', 'impl PartialResponse > fn get_forbid'),
